@@ -169,7 +169,15 @@ func (s *Stash) Clear(start, end int) {
 	if len(s.filename) == 0 {
 		return
 	}
-	f, err := os.OpenFile(s.filename, os.O_TRUNC|os.O_APPEND|os.O_CREATE|os.O_WRONLY, 0644)
+	s.rewrite()
+}
+
+// rewrite the file from the forms in memory. The forms are written to a
+// temporary file which then replaces the file so that an interrupted rewrite
+// does not leave a partial file behind.
+func (s *Stash) rewrite() {
+	tmp := fmt.Sprintf("%s.tmp", s.filename)
+	f, err := os.OpenFile(tmp, os.O_TRUNC|os.O_CREATE|os.O_WRONLY, 0644)
 	if err != nil {
 		panic(err)
 	}
@@ -178,6 +186,10 @@ func (s *Stash) Clear(start, end int) {
 		if _, err = f.Write(frm.TabAppend(nil)); err != nil {
 			panic(err)
 		}
+	}
+	_ = f.Close()
+	if err = os.Rename(tmp, s.filename); err != nil {
+		panic(err)
 	}
 }
 
